@@ -266,3 +266,19 @@ def c03(r):
     npairs = sum(len(s['steps'][0]['pairs']) for s in scs)
     r.extra['operand_pairs_checked'] = npairs
     r.extra['bounds'] = '64-bit lattice {0,+-1..3,2^k,2^k+-1,-(2^k),-(2^k)+-1,MIN,MIN+1,MAX-1,MAX} for k in %s, squared, x 14 binary operators; shifts x displacements -130..130 and huge; ** x exponents 0..70,100,1000,65537; nulls; int() over 66 boundary doubles; num() over the lattice' % ('1..63' if not r.quick else '{2,7,8,15,16,31,32,33,52,53,62,63}')
+
+
+@prop('C02')
+def c02(r):
+    r.assumptions += ['user functions in generated programs declare return type undefined or the type they really return (the manual makes declarations advisory)',
+                      'a tuple declaration with opaque items is matched item-wise',
+                      'in-place methods on variables are evaluated once (not side-effect free)']
+    l = 2
+    scs = r.gen('Gen_C02', 'Gen_C02.cfg', env={'GEN_DEPTH': str(l)}, timeout=3000)
+    r.exhaustive = True
+    r.extra['bounds'] = 'expression matrix: 43 operand kinds^2 x 24 binary operators, 5 unary, 40+17+6 built-ins, 6 members, tuple access/mutation; batch vs stepwise over all sequences of <= %d statements from a type-changing pool of 31' % l
+    obs = r.conform(scs, workers=16)
+    nexpr = sum(1 for s in scs for st in s['steps'] if st['op'] == 'expr')
+    ntyped = sum(1 for o in obs.values() for st in o.get('obs', []) if st.get('op') == 'expr' and st.get('oc') == 'ok' and st.get('sty', {}).get('m') != 'undef')
+    r.extra['expressions'] = nexpr
+    r.extra['expressions_evaluated_with_defined_static_type'] = ntyped
